@@ -3,7 +3,7 @@
 //! original id / geometry / property set; declared and delivered uncompressed.
 //!
 //! case line `C10m <src>,<src>,…` (src = `none` | hex of the *uncompressed* tile);
-//! answer `none` | `ok <semantic dump, layers sorted by name>` | `err` | `panic`.
+//! answer `none` | `ok <semantic dump, layers in output order = sorted by name since /repo d0cb5799>` | `err` | `panic`.
 //! The real operation is built from VPL over in-memory sources (plain / gzip / brotli) and read through
 //! `get_tile_data` and (every 3rd case) `get_tile_stream`.
 use crate::c11::{diff_kind, make_factory, runtime, SourceSpec, Sources};
@@ -115,7 +115,8 @@ fn emit(out: &mut Out, runner: &Runner, c: &MergeCase, with_stream: bool) {
 	let (res, stream, declared) = runner.run(c, with_stream);
 	let ans = match &res {
 		Res::None => "none".to_string(),
-		Res::Tile(b) => format!("ok {}", dump_bytes(b, true)),
+		// since /repo d0cb5799 merge_tiles keeps a BTreeMap: the real layer order must be "sorted by name" (the model sorts)
+		Res::Tile(b) => format!("ok {}", dump_bytes(b, false)),
 		Res::Err => "err".into(),
 		Res::Panic(_) => "panic".into(),
 	};
@@ -192,7 +193,7 @@ fn emit(out: &mut Out, runner: &Runner, c: &MergeCase, with_stream: bool) {
 	out.oracle(declared, "C10 merge: output not declared as uncompressed PBF", json!({"kind": "declared_compression"}), json!({"case": line}));
 	if let Some(s) = stream {
 		let same = match (&s, &res) {
-			(Res::Tile(a), Res::Tile(b)) => dump_bytes(a, true) == dump_bytes(b, true),
+			(Res::Tile(a), Res::Tile(b)) => a == b, // byte-identical since d0cb5799
 			(Res::None, Res::None) => true,
 			_ => false,
 		};
